@@ -13,6 +13,10 @@ fn main() {
         ops::run_threads(&args[2..]);
         return;
     }
+    if args.len() > 1 && args[1] == "hammer" {
+        ops::run_hammer(&args[2..]);
+        return;
+    }
     let stdin = std::io::stdin();
     let stdout = std::io::stdout();
     let mut out = BufWriter::new(stdout.lock());
